@@ -46,7 +46,20 @@ def gen_case(rng, i):
     kind = ["member", "member", "empty", "consistency"][i % 4]
     L, pt = feasible_list(rng, vs, rng.randint(1, 4), dy)
     c = {"kind": kind, "L": L}
-    if kind == "member":
+    if kind == "member" and i % 8 == 1:
+        # bounds of large magnitude: the boundary is as sharp there as anywhere (points 2^-7 .. 2^-3 outside are outside)
+        K = rng.choice([2**12, 2**14, 10000, 2**16])
+        v0 = vs[0]
+        a0 = rng.choice([1, -1, 2])
+        c["L"] = [({v0: a0}, K * (1 if a0 > 0 else -1) * rng.choice([1, -1]))] + (L[:1] if nv > 1 and rng.random() < 0.5 else [])
+        on = F(c["L"][0][1]) / a0
+        behs = []
+        for delta in (0, F(1, 128), -F(1, 128), F(1, 8), -F(1, 8), F(1, 32)):
+            b = {v: float(F(rng.randint(-8, 8), rng.choice([1, 2, 4]))) for v in vs}
+            b[v0] = float(on + delta)
+            behs.append(b)
+        c["behs"] = behs
+    elif kind == "member":
         c["behs"] = boundary_behaviours(rng, L, vs)[:7]
     elif kind == "empty":
         shape = rng.choice(["feasible", "contradiction", "thin_infeasible", "thin_feasible", "cycle", "few_rows"])
@@ -103,7 +116,7 @@ def main(tier, replay=None):
     return lpev.run(
         PROP, tier, gen_cases(tier), run_case,
         "membership: dyadic behaviours on / one step inside / one step outside the boundary of each row (so float evaluation is exact), a "
-        "zero-valued variable, an unassigned constrained variable -- TLC evaluates every row itself; emptiness: planted point, planted "
+        "zero-valued variable, an unassigned constrained variable, bounds of magnitude 2^12 .. 2^16 with points 2^-7 .. 2^-3 off the boundary -- TLC evaluates every row itself; emptiness: planted point, planted "
         "contradiction, margins 1 .. 2^-10, contradictory cycles, infeasible systems with no more rows than variables -- truth from a "
         "box-free Farkas certificate or a feasible point checked by TLC; consistency of membership with refinement on recorded values",
         owner=lambda ev: PROP, replay=replay,
